@@ -11,6 +11,13 @@ import time
 import traceback
 from typing import Any, Callable, Iterable
 
+TASK_TIMEOUT = int(os.environ.get("VERIF_TASK_TIMEOUT", "25"))
+
+
+class TaskTimeout(BaseException):
+    pass
+
+
 ROOT = os.path.dirname(os.path.dirname(os.path.abspath(__file__)))
 JOBS = int(os.environ.get("VERIF_JOBS", "16"))
 
@@ -19,11 +26,28 @@ def _call(args: tuple) -> dict[str, Any]:
     fn_mod, fn_name, name, prog = args
     import importlib
 
+    import signal
+
     fn = getattr(importlib.import_module(fn_mod), fn_name)
     t0 = time.time()
+
+    def _alarm(signum: int, frame: Any) -> None:
+        raise TaskTimeout("".join(traceback.format_stack(frame)[-6:]))
+
+    signal.signal(signal.SIGALRM, _alarm)
+    signal.alarm(TASK_TIMEOUT)
+    import contextlib
+    import io
+
     try:
-        r = fn(name, prog)
+        with contextlib.redirect_stdout(io.StringIO()), contextlib.redirect_stderr(io.StringIO()):
+            r = fn(name, prog)
+        signal.alarm(0)
+    except TaskTimeout as e:
+        signal.alarm(0)
+        r = {"status": "timeout", "what": f"no answer within {TASK_TIMEOUT}s", "where": str(e)[-1200:], "program": prog}
     except Exception as e:  # noqa
+        signal.alarm(0)
         r = {"status": "harness_error", "what": f"{type(e).__name__}: {e}", "tb": traceback.format_exc()[-1500:]}
     r["name"] = name
     r["wall_s"] = round(time.time() - t0, 3)
@@ -51,6 +75,10 @@ def run_family(prop: str, part_id: str, task: Callable[..., Any], programs: Iter
                 agg[k] += q.get(k, 0)
             for k, v in (q.get("k_hist") or {}).items():
                 k_hist[str(k)] = k_hist.get(str(k), 0) + v
+            if r.get("fallback"):
+                res["fallbacks"] = res.get("fallbacks", 0) + 1
+                if len([x for x in res["samples"] if x.get("fallback")]) < 2 and r.get("sample"):
+                    res["samples"].append(r["sample"])
             n_routines += r.get("routines", 0)
             n_equal += r.get("equal", 0)
             st = r["status"]
@@ -79,6 +107,15 @@ def run_family(prop: str, part_id: str, task: Callable[..., Any], programs: Iter
                     with open(path, "w") as fh:
                         json.dump(rec, fh, indent=1, default=str)
                 res["violations"].append({"ob": part_id, "replay": path, "message": f"{r['name']}: {r.get('what')}"})
+            elif st == "timeout":
+                kid = classify(r) if classify else None
+                kent = [k for k in known if k["id"] == kid and k.get("status") == "known"] if kid else []
+                if kent:
+                    res["known_hits"].append({"id": kid, "what": kent[0]["what"],
+                                              "witness": {"case": r["name"], "where": (r.get("where") or "")[-400:]}})
+                else:
+                    res["inconclusive"].append({"ob": part_id, "case": r["name"], "state": "timeout",
+                                                "message": (r.get("where") or "")[-300:]})
             elif st == "inconclusive":
                 res["inconclusive"].append({"ob": part_id, "case": r["name"], "state": "unknown", "message": r.get("what")})
             else:
